@@ -8,7 +8,7 @@ import re
 
 HUMAN = "human"
 _ws = re.compile(r"\s+")
-_uid = re.compile(r"(?<![A-Za-z0-9])[Lm][0-9]+(?![A-Za-z0-9])")
+_uid = re.compile(r"(?<![A-Za-z0-9])[Lmp][0-9]+(?![A-Za-z0-9])")
 
 
 def norm(line):
